@@ -688,7 +688,9 @@ class LexerTokenStream(TokenStream):
 
     def __init__(self, filename: typing.Optional[str], content: str) -> None:
         self._lex = PlyLexer(filename)
-        self._lex.input(content)
+        # CRLF line ends are read like LF line ends (as open() already does
+        # for files): the rules that look at line ends only know "\n"
+        self._lex.input(content.replace("\r\n", "\n"))
         self.tokbuf = typing.Deque[LexToken]()
 
     def _fill_tokbuf(self, tokbuf: typing.Deque[LexToken]) -> bool:
